@@ -112,6 +112,7 @@ struct Model {
 		auto D = [&](size_t i) -> int { return i < d.size() ? d[i] : 0; };
 		const cfg::Board *b = board_at(m.addr);
 		auto seg_of = [&](int num) -> SegS * { if (!b) return nullptr; for (auto &g : b->segs) if (g.addr == num) return &sg[g.id]; return nullptr; };
+		if (m.type == MSG_NODE_NEW || m.type == MSG_NODE_LOST) { apply_topology(m); return; }
 		switch (m.type) {
 			case MSG_BM_OCC: case MSG_BM_FREE: {
 				if (d.size() < 1) return;
@@ -217,6 +218,19 @@ struct Model {
 				break;
 			}
 			default: break;
+		}
+	}
+
+	// node new / lost notices (connectivity)
+	void apply_topology(const ref::Msg &m) {
+		if ((m.type != MSG_NODE_NEW && m.type != MSG_NODE_LOST) || m.data.size() < 9) return;
+		const cfg::Board *b = nullptr; for (auto &x : w.boards) if (!memcmp(x.uid, &m.data[2], 7)) b = &x;
+		if (!b) { unknown_targets++; return; }
+		Conn &c = conn[b->id];
+		if (m.type == MSG_NODE_NEW) { c.connected = true; c.addr = m.addr; c.addr.push_back(m.data[1]); }
+		else {
+			c.connected = false;
+			if (b->is_iface()) for (auto &kv : conn) { if (kv.first == b->id) continue; const auto &a = kv.second.addr; if (a.size() > c.addr.size() && std::equal(c.addr.begin(), c.addr.end(), a.begin())) kv.second.connected = false; }
 		}
 	}
 
